@@ -25,6 +25,7 @@ type GenOpts struct {
 	// header values with blanks at their ends and with bytes that are not UTF-8: net/http yields both (HTTP/2
 	// does not trim field values; a Latin-1 value passes through), CSV and JSON cannot carry them (known findings)
 	OddHeaders bool
+	Zones      bool // timestamps in several time zones (results of a distributed attack merged into one stream)
 	OddKeys    bool // header names with a blank before the colon, as net/http's HTTP/1.1 client accepts them
 }
 
@@ -188,7 +189,16 @@ func GenResult(t *simrt.Tape, o GenOpts) (r vegeta.Result, err error) {
 		}
 		switch {
 		case sf.Type == typTime:
-			f.Set(reflect.ValueOf(genTime(t)))
+			tm := genTime(t)
+			if o.Zones && t.Prob(1, 2) {
+				// (offsets in whole minutes: RFC 3339 has no seconds in an offset)
+				z := []struct {
+					name string
+					off  int
+				}{{"CEST", 2 * 3600}, {"MST", -7 * 3600}, {"IST", 5*3600 + 1800}, {"CHAST", 12*3600 + 2700}, {"", 0}}[t.Choose(5)]
+				tm = tm.In(time.FixedZone(z.name, z.off))
+			}
+			f.Set(reflect.ValueOf(tm))
 		case sf.Type == typDur:
 			f.SetInt(genI64(t))
 		case sf.Type == typHeader, sf.Type.Kind() == reflect.Map && sf.Type.Key().Kind() == reflect.String && sf.Type.Elem() == reflect.TypeOf([]string(nil)):
